@@ -1,7 +1,9 @@
-"""C06 part 2 — emit_args_assignment: the real code's instruction list judged by the Lean machine monitor (used by c06.py).
+"""C06 part 2 — emit_args_assignment (used by c06.py).
 
-There is no Lean *model* of the shuffle yet (see notes/C06.md): this stage is monitor-only – every schedule the real code emits is
-executed on Spec/Machine.lean and must leave every destination holding its argument, extended as required."""
+(1) correspondence: Model/ArgShuffle.lean (init_work_data + emit_args_assignment + emit_arg_move/emit_reg_move/emit_reg_swap) must
+emit exactly the instruction list the real code emits into a Builder, given the frame facts the real FuncFrame reports;
+(2) monitor: every schedule the real code emits is executed on Spec/Machine.lean and must leave every destination holding its
+argument, extended as required."""
 import itertools
 
 import vlib
@@ -156,7 +158,7 @@ def sh_key(op, m, ans=""):
     groups = {d.split(".")[0] for d in dsts if d.startswith("r")}
     has_xchg = any(i.startswith("xchg") for i in insts)
     if "dest-of-arg" in m:
-        if env.startswith("a64") and small and any(i.startswith("mov r") for i in insts):
+        if env.startswith("a64") and small:
             return "shuffle:a64-no-extension"
         if has_xchg and len(groups) > 1:
             return "shuffle:cross-group-swap"
